@@ -40,8 +40,10 @@ var (
 		hx(append(rep(0xb1, 20), []byte("stake")...)),   // signer 1 followed by the denom
 		hx(rep(0xee, 32)),                               // 32 bytes
 		hx(rep(0xee, 20)),                               // 20-byte prefix of the previous
+		hx(append([]byte{0x00}, rep(0xa0, 19)...)),      // starts with a zero byte (the separator of several store keys)
 	}
-	ServiceNames = []string{"a", "ab", "ab-c", "svc"}
+	// "Ab" differs from "ab" only by case: names are case-sensitive, the two are different services
+	ServiceNames = []string{"a", "ab", "ab-c", "svc", "Ab"}
 
 	SchemasOK = `{"input":{"type":"object"},"output":{"type":"object"}}`
 	InputOK   = `{"header":{},"body":{}}`
